@@ -268,3 +268,676 @@ Proof.
 Qed.
 
 End Bce.
+
+(* ------------------------------------------------------------------------------------ *)
+(* back-propagation through the thirty nodes                                             *)
+(* ------------------------------------------------------------------------------------ *)
+Section BceBp.
+Variables (thr : R) (draw : bool -> nat -> R).
+Local Hint Extern 0 (Scalar R) => exact (R_scalar thr draw) : typeclass_instances.
+Notation T := (tensor R).
+Notation heap := (@heap R).
+Notation rule := (@rule R).
+Notation idseal := (fun (_ : option nat) (g : T) => g).
+Notation c0 := (@cst R (R_scalar thr draw) 0 0).
+Notation c1 := (@cst R (R_scalar thr draw) 1 0).
+Notation cm1 := (@cst R (R_scalar thr draw) (-1) 0).
+Variables (eps ome : R).
+
+(* the processing order of the component: the twenty-three tracked nodes above the prediction *)
+Definition bce_pre (L : nat) : list nat :=
+  map (fun k => (L + k)%nat) [29; 28; 27; 26; 24; 23; 21; 20; 19; 18; 22; 17; 15; 14; 25; 13; 12; 10; 9; 8; 7; 6; 5]%nat.
+
+(* deciding membership in the visited list: before the search below p (offsets only), and after it
+   (the visited list is  new offsets ++ nv ++ old offsets  with every element of nv <= p) *)
+Ltac mdec Hp := rewrite ?memb_cons, ?eqb_off, ?(eqb_lt_off _ _ _ Hp), ?(eqb_off_lt _ _ _ Hp); reflexivity.
+Ltac mdec2 Hp Bnv :=
+  rewrite ?memb_cons; rewrite (memb_app_gt _ _ _ _ Bnv) by blia;
+  rewrite ?memb_cons, ?eqb_off, ?(eqb_lt_off _ _ _ Hp), ?(eqb_off_lt _ _ _ Hp); reflexivity.
+
+(* facts about the k-th of the thirty appended nodes of H = h ++ nodes *)
+Tactic Notation "bnode_edges" constr(h) constr(nodes) constr(H) constr(k) ident(E) :=
+  pose proof (edgesOf_off h nodes k) as E; change (h ++ nodes) with H in E; unfold nodes, bce_nodes in E;
+  cbn [edgesOf nth_error nedges xnode arithEdges] in E.
+Tactic Notation "bnode_tracked" constr(h) constr(nodes) constr(H) constr(k) ident(E) :=
+  pose proof (trackedOf_off h nodes k) as E; change (h ++ nodes) with H in E; unfold nodes, bce_nodes in E;
+  cbn [trackedOf nth_error ntracked xnode] in E.
+Tactic Notation "bnode_val" constr(h) constr(nodes) constr(H) constr(k) ident(E) :=
+  pose proof (valOf_off h nodes k) as E; change (h ++ nodes) with H in E; unfold nodes, bce_nodes in E;
+  cbn [valOf nth_error nval xnode obind] in E.
+
+(* the depth-first search from the loss: reverse post-order = bce_pre, then p and its own ancestry.
+   p is reached first through the lower clip bound (29 .. 9, 6, 5, p); the later edges into p and
+   into 5, 9, 14 find them visited. *)
+Lemma bce_order (h : heap) p t name
+  (a0 a1 a2 a3 a4 b0 b1 b2 b3 b4 lpv k1 k2 sAv one2 d1 d2 t2v e1 e2 y2v ly2v f1 f2 sBv g1 g2 lv lnv lossv : T) :
+  wf_heap (h ++ bce_nodes eps ome (length h) p t true name
+                 a0 a1 a2 a3 a4 b0 b1 b2 b3 b4 lpv k1 k2 sAv one2 d1 d2 t2v e1 e2 y2v ly2v f1 f2 sBv g1 g2 lv lnv lossv) ->
+  (p < length h)%nat -> trackedOf h p = true ->
+  let H := h ++ bce_nodes eps ome (length h) p t true name
+                 a0 a1 a2 a3 a4 b0 b1 b2 b3 b4 lpv k1 k2 sAv one2 d1 d2 t2v e1 e2 y2v ly2v f1 f2 sBv g1 g2 lv lnv lossv in
+  exists rest, topoOrder H (length h + 29) = bce_pre (length h) ++ p :: rest /\
+    (forall x, In x rest -> (x < p)%nat) /\ (edgesOf H p = [] -> rest = []).
+Proof.
+  intros HwH Hp Tp H.
+  set (nodes := bce_nodes eps ome (length h) p t true name
+                 a0 a1 a2 a3 a4 b0 b1 b2 b3 b4 lpv k1 k2 sAv one2 d1 d2 t2v e1 e2 y2v ly2v f1 f2 sBv g1 g2 lv lnv lossv) in *.
+  assert (THp : trackedOf H p = true) by (unfold H; rewrite trackedOf_app by exact Hp; exact Tp).
+  bnode_edges h nodes H 5%nat E5. bnode_tracked h nodes H 5%nat T5.
+  bnode_edges h nodes H 6%nat E6. bnode_tracked h nodes H 6%nat T6.
+  bnode_edges h nodes H 7%nat E7. bnode_tracked h nodes H 7%nat T7.
+  bnode_edges h nodes H 8%nat E8. bnode_tracked h nodes H 8%nat T8.
+  bnode_edges h nodes H 9%nat E9. bnode_tracked h nodes H 9%nat T9.
+  bnode_edges h nodes H 10%nat E10. bnode_tracked h nodes H 10%nat T10.
+  bnode_edges h nodes H 12%nat E12. bnode_tracked h nodes H 12%nat T12.
+  bnode_edges h nodes H 13%nat E13. bnode_tracked h nodes H 13%nat T13.
+  bnode_edges h nodes H 14%nat E14. bnode_tracked h nodes H 14%nat T14.
+  bnode_edges h nodes H 15%nat E15. bnode_tracked h nodes H 15%nat T15.
+  bnode_edges h nodes H 17%nat E17. bnode_tracked h nodes H 17%nat T17.
+  bnode_edges h nodes H 18%nat E18. bnode_tracked h nodes H 18%nat T18.
+  bnode_edges h nodes H 19%nat E19. bnode_tracked h nodes H 19%nat T19.
+  bnode_edges h nodes H 20%nat E20. bnode_tracked h nodes H 20%nat T20.
+  bnode_edges h nodes H 21%nat E21. bnode_tracked h nodes H 21%nat T21.
+  bnode_edges h nodes H 22%nat E22. bnode_tracked h nodes H 22%nat T22.
+  bnode_edges h nodes H 23%nat E23. bnode_tracked h nodes H 23%nat T23.
+  bnode_edges h nodes H 24%nat E24. bnode_tracked h nodes H 24%nat T24.
+  bnode_edges h nodes H 25%nat E25. bnode_tracked h nodes H 25%nat T25.
+  bnode_edges h nodes H 26%nat E26. bnode_tracked h nodes H 26%nat T26.
+  bnode_edges h nodes H 27%nat E27. bnode_tracked h nodes H 27%nat T27.
+  bnode_edges h nodes H 28%nat E28. bnode_tracked h nodes H 28%nat T28.
+  bnode_edges h nodes H 29%nat E29. bnode_tracked h nodes H 29%nat T29.
+  bnode_tracked h nodes H 11%nat T11. bnode_tracked h nodes H 16%nat T16.
+  change (h ++ nodes) with H in HwH. clearbody H. clear nodes.
+  unfold topoOrder.
+  rewrite dfs_t; [|blia|exact T29|reflexivity]. rewrite E29. cbn [fold_left fst snd].
+  rewrite dfs_t; [|blia|exact T28|mdec Hp]. rewrite E28. cbn [fold_left fst snd].
+  rewrite dfs_t; [|blia|exact T27|mdec Hp]. rewrite E27. cbn [fold_left fst snd].
+  rewrite dfs_t; [|blia|exact T25|mdec Hp]. rewrite E25. cbn [fold_left fst snd].
+  rewrite dfs_t; [|blia|exact T13|mdec Hp]. rewrite E13. cbn [fold_left fst snd].
+  rewrite (dfs_u H _ (length h + 11)%nat) by exact T11.
+  rewrite dfs_t; [|blia|exact T12|mdec Hp]. rewrite E12. cbn [fold_left fst snd].
+  rewrite dfs_t; [|blia|exact T10|mdec Hp]. rewrite E10. cbn [fold_left fst snd].
+  rewrite dfs_t; [|blia|exact T9|mdec Hp]. rewrite E9. cbn [fold_left fst snd].
+  rewrite dfs_t; [|blia|exact T6|mdec Hp]. rewrite E6. cbn [fold_left fst snd].
+  rewrite dfs_t; [|blia|exact T5|mdec Hp]. rewrite E5. cbn [fold_left fst snd].
+  match goal with |- context [dfs ?f H p (?V, ?R)] =>
+    destruct (dfs_cut H HwH f p V R) as (nv & rest & Ecut & Bnv & Inv & Brest & Hleaf);
+      [blia|exact THp|mdec Hp|rewrite Ecut] end.
+  rewrite !post_pair.
+  rewrite dfs_t; [|blia|exact T8|mdec2 Hp Bnv]. rewrite E8. cbn [fold_left fst snd].
+  rewrite (dfs_v H _ p) by (cbn [fst]; rewrite memb_cons, (memb_app_in _ _ _ Inv); apply orb_true_r).
+  rewrite dfs_t; [|blia|exact T7|mdec2 Hp Bnv]. rewrite E7. cbn [fold_left fst snd].
+  rewrite (dfs_v H _ (length h + 5)%nat) by (cbn [fst]; mdec2 Hp Bnv).
+  rewrite !post_pair.
+  rewrite dfs_t; [|blia|exact T26|mdec2 Hp Bnv]. rewrite E26. cbn [fold_left fst snd].
+  rewrite dfs_t; [|blia|exact T24|mdec2 Hp Bnv]. rewrite E24. cbn [fold_left fst snd].
+  rewrite dfs_t; [|blia|exact T22|mdec2 Hp Bnv]. rewrite E22. cbn [fold_left fst snd].
+  rewrite dfs_t; [|blia|exact T17|mdec2 Hp Bnv]. rewrite E17. cbn [fold_left fst snd].
+  rewrite dfs_t; [|blia|exact T15|mdec2 Hp Bnv]. rewrite E15. cbn [fold_left fst snd].
+  rewrite dfs_t; [|blia|exact T14|mdec2 Hp Bnv]. rewrite E14. cbn [fold_left fst snd].
+  rewrite (dfs_v H _ (length h + 9)%nat) by (cbn [fst]; mdec2 Hp Bnv).
+  rewrite !post_pair.
+  rewrite (dfs_u H _ (length h + 16)%nat) by exact T16.
+  rewrite !post_pair.
+  rewrite dfs_t; [|blia|exact T23|mdec2 Hp Bnv]. rewrite E23. cbn [fold_left fst snd].
+  rewrite dfs_t; [|blia|exact T21|mdec2 Hp Bnv]. rewrite E21. cbn [fold_left fst snd].
+  rewrite dfs_t; [|blia|exact T20|mdec2 Hp Bnv]. rewrite E20. cbn [fold_left fst snd].
+  rewrite dfs_t; [|blia|exact T18|mdec2 Hp Bnv]. rewrite E18. cbn [fold_left fst snd].
+  rewrite (dfs_v H _ (length h + 14)%nat) by (cbn [fst]; mdec2 Hp Bnv).
+  rewrite !post_pair.
+  rewrite dfs_t; [|blia|exact T19|mdec2 Hp Bnv]. rewrite E19. cbn [fold_left fst snd].
+  rewrite (dfs_v H _ (length h + 9)%nat) by (cbn [fst]; mdec2 Hp Bnv).
+  rewrite !post_pair.
+  cbn [snd]. exists rest. split; [rewrite app_nil_r; reflexivity|]. split; [exact Brest|exact Hleaf].
+Qed.
+
+(* the element of the gradient at a prediction x with target t, as the rules compute it:
+   t' = clipped target, y = clipped prediction, G27 = gradient of the sum l (mean, then negation),
+   G9 = gradient of the clipped prediction (through log(1-y), the zero rule of the ones-like node 14,
+   and log y), then the two tie-splitting ElMax / ElMin factors *)
+Definition bceD (N : nat) (x t : R) : R :=
+  let t' := Rmax 0 (Rmin t 1) in
+  let m := Rmin x ome in
+  let y := Rmax eps m in
+  let G27 := 1 / INR N * -1 in
+  let G9 := (G27 * (1 - t') * / (1 - y)) * -1 + 0 + G27 * t' * / y in
+  G9 * (eqt thr y m - / 2 * eqt thr m eps) * (eqt thr m x - / 2 * eqt thr x ome).
+
+Definition bceG (pv tv : T) : T :=
+  let N := nth 0 (dims pv) 0%nat in ofFun [N] (fun idx => bceD N (elt pv idx) (elt tv idx)).
+
+Lemma clipR_simpl lo up x : Rmax (lo * Rpow x c0) (Rmin x (up * Rpow x c0)) = Rmax lo (Rmin x up).
+Proof. rewrite cst_R, dec2R_0, Rpow_0, !Rmult_1_r. reflexivity. Qed.
+
+Lemma Rpow_c0 x : Rpow x c0 = 1.
+Proof. rewrite cst_R, dec2R_0. apply Rpow_0. Qed.
+
+Lemma Vl_isT (H : heap) i v ds f idx : valOf H i = Some v -> isT ds f v -> validIdx ds idx -> Vl H i idx = f idx.
+Proof. intros E (_ & _ & G) Hv. unfold Vl. rewrite E. apply G, Hv. Qed.
+
+Ltac use_edges He :=
+  match type of He with In _ (edgesOf ?H ?c) => match goal with Ek : edgesOf H c = _ |- _ => rewrite Ek in He end end.
+Ltac dm_solve H := repeat match goal with D : Dm H _ = _ |- _ => rewrite D end; reflexivity.
+Ltac rok_solve H :=
+  cbn [fst snd] in *;
+  first [ exfalso; congruence
+        | split; [first [left; apply Nat.le_add_r | right; reflexivity]
+                 | cbn [rok]; repeat match goal with |- _ /\ _ => split end;
+                   first [reflexivity | assumption | dm_solve H]] ].
+
+(* MASTER LEMMA.  Back-propagation from the loss processes the twenty-three tracked nodes of the
+   component above the prediction, which never fails, and then continues with the prediction p
+   and its own ancestry [rest] from a heap hm in which p already carries its final gradient. *)
+Lemma bce_bp rd (h : heap) p t name pv tv g0 h1 l :
+  rules_own h -> wf_heap h ->
+  valOf h p = Some pv -> wf pv -> valOf h t = Some tv -> wf tv ->
+  trackedOf h p = true -> dirtyOf h p = false -> trackedOf h t = false -> dirtyOf h t = false ->
+  lossArgs1 h (Some p) (Some t) = Some (p, t) ->
+  gradOf h p = g0 -> prior_ok (dims pv) g0 ->
+  bce_compute eps ome h (Some p) (Some t) name = (h1, Ok l) ->
+  exists hm logm rest g,
+    bp_topo rd idseal h1 l = fold_left (process_node rd idseal) (p :: rest) (hm, logm, Ok tt) /\
+    (forall c, In c rest -> (c < p)%nat) /\ (edgesOf h p = [] -> rest = []) /\
+    sameS h1 hm /\ wf_heap h1 /\ trackedOf h1 t = false /\ edgesOf h1 p = edgesOf h p /\
+    gradOf hm p = Some g /\ dims g = dims pv /\ wf g /\
+    acc1 g0 (bceG pv tv) = Some (Some g) /\
+    (forall j, (j < length h)%nat -> j <> p -> gradOf hm j = gradOf h j) /\
+    (forall j, (j < length h)%nat -> gradOf h1 j = gradOf h j).
+Proof.
+  intros Ho Hw Vp Wp Vt Wt Tp Dp Tt Dt Ea Eg0 Hprior E. unfold bceG. set (N := nth 0 (dims pv) 0%nat).
+  destruct (lossArgs1_dims h (Some p) (Some t) p t pv tv Ea Vp Vt) as (n & Edp & Edt).
+  assert (EN : N = n) by (unfold N; rewrite Edp; reflexivity). clearbody N. subst n.
+  destruct (bce_structure eps ome h p t name h1 l true pv tv Vp Vt Tp Dp Tt Dt Ea E)
+    as (a0 & a1 & a2 & a3 & a4 & b0 & b1 & b2 & b3 & b4 & lpv & k1 & k2 & sAv & one2 & d1 & d2 & t2v & e1 & e2 & y2v & ly2v & f1 & f2 & sBv & g1 & g2 & lv & lnv & lossv & Hf & -> & EH).
+  destruct (bce_fwd_isT thr draw eps ome N pv tv a0 a1 a2 a3 a4 b0 b1 b2 b3 b4 lpv k1 k2 sAv one2 d1 d2 t2v e1 e2 y2v ly2v f1 f2 sBv g1 g2 lv lnv lossv Wp Wt Edp Edt Hf)
+    as (FA1 & FA2 & FA3 & FLp & FsA & FLy & FsB & FL & FLn & I0 & I1 & I2 & I3 & I4 & I5 & I6 & I7 & I8 & I9 & I10 & I11 & I12 & I13 & I14 & I15 & I16 & I17 & I18 & I19 & I20 & I21 & I22 & I23 & I24 & I25 & I26 & I27 & I28 & Dlv & Wlv).
+  cbv zeta in *. clear Hf.
+  assert (Hp : (p < length h)%nat) by (eapply valOf_some_lt; eauto).
+  assert (Ht : (t < length h)%nat) by (eapply valOf_some_lt; eauto).
+  assert (Npos : (0 < N)%nat) by (destruct Wp as [_ Hpos]; rewrite Edp in Hpos; inversion Hpos; assumption).
+  assert (OW := bce_own_wf eps ome h p t name a0 a1 a2 a3 a4 b0 b1 b2 b3 b4 lpv k1 k2 sAv one2 d1 d2 t2v e1 e2 y2v ly2v f1 f2 sBv g1 g2 lv lnv lossv Ho Hw Hp Ht). cbv zeta in OW. destruct OW as [HoH HwH].
+  destruct (bce_order h p t name a0 a1 a2 a3 a4 b0 b1 b2 b3 b4 lpv k1 k2 sAv one2 d1 d2 t2v e1 e2 y2v ly2v f1 f2 sBv g1 g2 lv lnv lossv HwH Hp Tp) as (rest & Eord & Brest & Hleaf). cbv zeta in Eord, Hleaf.
+  set (nodes := bce_nodes eps ome (length h) p t true name a0 a1 a2 a3 a4 b0 b1 b2 b3 b4 lpv k1 k2 sAv one2 d1 d2 t2v e1 e2 y2v ly2v f1 f2 sBv g1 g2 lv lnv lossv) in *.
+  set (H := h ++ nodes) in *. subst h1.
+  assert (VHp : valOf H p = Some pv) by (unfold H; rewrite valOf_app by exact Hp; exact Vp).
+  assert (THp : trackedOf H p = true) by (unfold H; rewrite trackedOf_app by exact Hp; exact Tp).
+  assert (GHp : gradOf H p = g0) by (unfold H; rewrite gradOf_old by exact Hp; exact Eg0).
+  assert (LH : length H = (length h + 30)%nat) by (unfold H; rewrite app_length; reflexivity).
+  assert (Gnone : forall j, (length h <= j)%nat -> gradOf H j = None).
+  { intros j Hj. unfold H. apply gradOf_ext_none; [|exact Hj]. unfold nodes, bce_nodes. repeat constructor. }
+  bnode_edges h nodes H 5%nat E5.  bnode_edges h nodes H 6%nat E6.
+  bnode_edges h nodes H 7%nat E7.  bnode_edges h nodes H 8%nat E8.  bnode_edges h nodes H 9%nat E9.
+  bnode_edges h nodes H 10%nat E10.  bnode_edges h nodes H 12%nat E12.
+  bnode_edges h nodes H 13%nat E13.  bnode_edges h nodes H 14%nat E14.  bnode_edges h nodes H 15%nat E15.
+  bnode_edges h nodes H 17%nat E17.  bnode_edges h nodes H 18%nat E18.
+  bnode_edges h nodes H 19%nat E19.  bnode_edges h nodes H 20%nat E20.  bnode_edges h nodes H 21%nat E21.
+  bnode_edges h nodes H 22%nat E22.  bnode_edges h nodes H 23%nat E23.  bnode_edges h nodes H 24%nat E24.
+  bnode_edges h nodes H 25%nat E25.  bnode_edges h nodes H 26%nat E26.  bnode_edges h nodes H 27%nat E27.
+  bnode_edges h nodes H 28%nat E28.  bnode_edges h nodes H 29%nat E29.
+  bnode_tracked h nodes H 0%nat T0. bnode_val h nodes H 0%nat V0.
+  bnode_tracked h nodes H 1%nat T1. bnode_val h nodes H 1%nat V1.
+  bnode_tracked h nodes H 2%nat T2. bnode_val h nodes H 2%nat V2.
+  bnode_tracked h nodes H 3%nat T3. bnode_val h nodes H 3%nat V3.
+  bnode_tracked h nodes H 4%nat T4. bnode_val h nodes H 4%nat V4.
+  bnode_tracked h nodes H 5%nat T5. bnode_val h nodes H 5%nat V5.
+  bnode_tracked h nodes H 6%nat T6. bnode_val h nodes H 6%nat V6.
+  bnode_tracked h nodes H 7%nat T7. bnode_val h nodes H 7%nat V7.
+  bnode_tracked h nodes H 8%nat T8. bnode_val h nodes H 8%nat V8.
+  bnode_tracked h nodes H 9%nat T9. bnode_val h nodes H 9%nat V9.
+  bnode_tracked h nodes H 10%nat T10. bnode_val h nodes H 10%nat V10.
+  bnode_tracked h nodes H 11%nat T11. bnode_val h nodes H 11%nat V11.
+  bnode_tracked h nodes H 12%nat T12. bnode_val h nodes H 12%nat V12.
+  bnode_tracked h nodes H 13%nat T13. bnode_val h nodes H 13%nat V13.
+  bnode_tracked h nodes H 14%nat T14. bnode_val h nodes H 14%nat V14.
+  bnode_tracked h nodes H 15%nat T15. bnode_val h nodes H 15%nat V15.
+  bnode_tracked h nodes H 16%nat T16. bnode_val h nodes H 16%nat V16.
+  bnode_tracked h nodes H 17%nat T17. bnode_val h nodes H 17%nat V17.
+  bnode_tracked h nodes H 18%nat T18. bnode_val h nodes H 18%nat V18.
+  bnode_tracked h nodes H 19%nat T19. bnode_val h nodes H 19%nat V19.
+  bnode_tracked h nodes H 20%nat T20. bnode_val h nodes H 20%nat V20.
+  bnode_tracked h nodes H 21%nat T21. bnode_val h nodes H 21%nat V21.
+  bnode_tracked h nodes H 22%nat T22. bnode_val h nodes H 22%nat V22.
+  bnode_tracked h nodes H 23%nat T23. bnode_val h nodes H 23%nat V23.
+  bnode_tracked h nodes H 24%nat T24. bnode_val h nodes H 24%nat V24.
+  bnode_tracked h nodes H 25%nat T25. bnode_val h nodes H 25%nat V25.
+  bnode_tracked h nodes H 26%nat T26. bnode_val h nodes H 26%nat V26.
+  bnode_tracked h nodes H 27%nat T27. bnode_val h nodes H 27%nat V27.
+  bnode_tracked h nodes H 28%nat T28. bnode_val h nodes H 28%nat V28.
+  bnode_tracked h nodes H 29%nat T29. bnode_val h nodes H 29%nat V29.
+  assert (D0 : Dm H (length h + 0) = [N]) by (unfold Dm; rewrite V0; exact (proj1 I0)).
+  assert (O0 : okv H (length h + 0)) by (eexists; split; [exact V0|exact (proj1 (proj2 I0))]).
+  assert (D1 : Dm H (length h + 1) = [N]) by (unfold Dm; rewrite V1; exact (proj1 I1)).
+  assert (O1 : okv H (length h + 1)) by (eexists; split; [exact V1|exact (proj1 (proj2 I1))]).
+  assert (D2 : Dm H (length h + 2) = [N]) by (unfold Dm; rewrite V2; exact (proj1 I2)).
+  assert (O2 : okv H (length h + 2)) by (eexists; split; [exact V2|exact (proj1 (proj2 I2))]).
+  assert (D3 : Dm H (length h + 3) = [N]) by (unfold Dm; rewrite V3; exact (proj1 I3)).
+  assert (O3 : okv H (length h + 3)) by (eexists; split; [exact V3|exact (proj1 (proj2 I3))]).
+  assert (D4 : Dm H (length h + 4) = [N]) by (unfold Dm; rewrite V4; exact (proj1 I4)).
+  assert (O4 : okv H (length h + 4)) by (eexists; split; [exact V4|exact (proj1 (proj2 I4))]).
+  assert (D5 : Dm H (length h + 5) = [N]) by (unfold Dm; rewrite V5; exact (proj1 I5)).
+  assert (O5 : okv H (length h + 5)) by (eexists; split; [exact V5|exact (proj1 (proj2 I5))]).
+  assert (D6 : Dm H (length h + 6) = [N]) by (unfold Dm; rewrite V6; exact (proj1 I6)).
+  assert (O6 : okv H (length h + 6)) by (eexists; split; [exact V6|exact (proj1 (proj2 I6))]).
+  assert (D7 : Dm H (length h + 7) = [N]) by (unfold Dm; rewrite V7; exact (proj1 I7)).
+  assert (O7 : okv H (length h + 7)) by (eexists; split; [exact V7|exact (proj1 (proj2 I7))]).
+  assert (D8 : Dm H (length h + 8) = [N]) by (unfold Dm; rewrite V8; exact (proj1 I8)).
+  assert (O8 : okv H (length h + 8)) by (eexists; split; [exact V8|exact (proj1 (proj2 I8))]).
+  assert (D9 : Dm H (length h + 9) = [N]) by (unfold Dm; rewrite V9; exact (proj1 I9)).
+  assert (O9 : okv H (length h + 9)) by (eexists; split; [exact V9|exact (proj1 (proj2 I9))]).
+  assert (D10 : Dm H (length h + 10) = [N]) by (unfold Dm; rewrite V10; exact (proj1 I10)).
+  assert (O10 : okv H (length h + 10)) by (eexists; split; [exact V10|exact (proj1 (proj2 I10))]).
+  assert (D11 : Dm H (length h + 11) = [N]) by (unfold Dm; rewrite V11; exact (proj1 I11)).
+  assert (O11 : okv H (length h + 11)) by (eexists; split; [exact V11|exact (proj1 (proj2 I11))]).
+  assert (D12 : Dm H (length h + 12) = [N]) by (unfold Dm; rewrite V12; exact (proj1 I12)).
+  assert (O12 : okv H (length h + 12)) by (eexists; split; [exact V12|exact (proj1 (proj2 I12))]).
+  assert (D13 : Dm H (length h + 13) = [N]) by (unfold Dm; rewrite V13; exact (proj1 I13)).
+  assert (O13 : okv H (length h + 13)) by (eexists; split; [exact V13|exact (proj1 (proj2 I13))]).
+  assert (D14 : Dm H (length h + 14) = [N]) by (unfold Dm; rewrite V14; exact (proj1 I14)).
+  assert (O14 : okv H (length h + 14)) by (eexists; split; [exact V14|exact (proj1 (proj2 I14))]).
+  assert (D15 : Dm H (length h + 15) = [N]) by (unfold Dm; rewrite V15; exact (proj1 I15)).
+  assert (O15 : okv H (length h + 15)) by (eexists; split; [exact V15|exact (proj1 (proj2 I15))]).
+  assert (D16 : Dm H (length h + 16) = [N]) by (unfold Dm; rewrite V16; exact (proj1 I16)).
+  assert (O16 : okv H (length h + 16)) by (eexists; split; [exact V16|exact (proj1 (proj2 I16))]).
+  assert (D17 : Dm H (length h + 17) = [N]) by (unfold Dm; rewrite V17; exact (proj1 I17)).
+  assert (O17 : okv H (length h + 17)) by (eexists; split; [exact V17|exact (proj1 (proj2 I17))]).
+  assert (D18 : Dm H (length h + 18) = [N]) by (unfold Dm; rewrite V18; exact (proj1 I18)).
+  assert (O18 : okv H (length h + 18)) by (eexists; split; [exact V18|exact (proj1 (proj2 I18))]).
+  assert (D19 : Dm H (length h + 19) = [N]) by (unfold Dm; rewrite V19; exact (proj1 I19)).
+  assert (O19 : okv H (length h + 19)) by (eexists; split; [exact V19|exact (proj1 (proj2 I19))]).
+  assert (D20 : Dm H (length h + 20) = [N]) by (unfold Dm; rewrite V20; exact (proj1 I20)).
+  assert (O20 : okv H (length h + 20)) by (eexists; split; [exact V20|exact (proj1 (proj2 I20))]).
+  assert (D21 : Dm H (length h + 21) = [N]) by (unfold Dm; rewrite V21; exact (proj1 I21)).
+  assert (O21 : okv H (length h + 21)) by (eexists; split; [exact V21|exact (proj1 (proj2 I21))]).
+  assert (D22 : Dm H (length h + 22) = [N]) by (unfold Dm; rewrite V22; exact (proj1 I22)).
+  assert (O22 : okv H (length h + 22)) by (eexists; split; [exact V22|exact (proj1 (proj2 I22))]).
+  assert (D23 : Dm H (length h + 23) = [N]) by (unfold Dm; rewrite V23; exact (proj1 I23)).
+  assert (O23 : okv H (length h + 23)) by (eexists; split; [exact V23|exact (proj1 (proj2 I23))]).
+  assert (D24 : Dm H (length h + 24) = [N]) by (unfold Dm; rewrite V24; exact (proj1 I24)).
+  assert (O24 : okv H (length h + 24)) by (eexists; split; [exact V24|exact (proj1 (proj2 I24))]).
+  assert (D25 : Dm H (length h + 25) = [N]) by (unfold Dm; rewrite V25; exact (proj1 I25)).
+  assert (O25 : okv H (length h + 25)) by (eexists; split; [exact V25|exact (proj1 (proj2 I25))]).
+  assert (D26 : Dm H (length h + 26) = [N]) by (unfold Dm; rewrite V26; exact (proj1 I26)).
+  assert (O26 : okv H (length h + 26)) by (eexists; split; [exact V26|exact (proj1 (proj2 I26))]).
+  assert (D27 : Dm H (length h + 27) = [N]) by (unfold Dm; rewrite V27; exact (proj1 I27)).
+  assert (O27 : okv H (length h + 27)) by (eexists; split; [exact V27|exact (proj1 (proj2 I27))]).
+  assert (D28 : Dm H (length h + 28) = [N]) by (unfold Dm; rewrite V28; exact (proj1 I28)).
+  assert (O28 : okv H (length h + 28)) by (eexists; split; [exact V28|exact (proj1 (proj2 I28))]).
+  assert (D29 : Dm H (length h + 29) = []) by (unfold Dm; rewrite V29; exact Dlv).
+  assert (DP : Dm H p = [N]) by (unfold Dm; rewrite VHp; exact Edp).
+  assert (OP : okv H p) by (exists pv; split; [exact VHp|exact Wp]).
+  (* the seed *)
+  destruct (un_elt thr draw (UPow (sconst 0 0)) lossv Wlv) as (ones & Eones & Dones & Wones & Gones).
+  assert (Tones : isT (Dm H (length h + 29)) (fun _ => 1) ones).
+  { rewrite D29. split; [congruence|]. split; [exact Wones|]. intros idx Hv.
+    rewrite Gones by (rewrite Dlv; exact Hv). rewrite uF_pow, sconst_R, dec2R_0. apply Rpow_0. }
+  rewrite (bp_topo_split rd H (length h + 29) _ _ lossv ones T29 Eord V29 Eones (Gnone _ (Nat.le_add_r _ _))).
+  set (order := bce_pre (length h) ++ p :: rest).
+  set (hh0 := setGrad (markDirty H order) (length h + 29) (Some ones)).
+  assert (HS0 : sameS H hh0).
+  { eapply sameS_trans; [apply sameS_markDirty|apply sameS_setGrad]. }
+  set (dom := fun j : nat => (length h <= j)%nat \/ j = p).
+  set (s0 := (fun j => if (j =? length h + 29)%nat then Some (fun _ : list nat => 1)
+                       else if (j =? p)%nat then option_map elt g0 else None) : astate).
+  assert (HM0 : models H dom hh0 s0).
+  { intros j Hj. unfold s0, hh0. rewrite gradOf_setGrad, gradOf_markDirty.
+    destruct (j =? length h + 29)%nat eqn:Ej.
+    - rewrite length_markDirty, LH. assert (X : (length h + 29 <? length h + 30)%nat = true) by (apply Nat.ltb_lt; blia).
+      rewrite X. exists ones. apply Nat.eqb_eq in Ej. subst j. split; [reflexivity|exact Tones].
+    - destruct (j =? p)%nat eqn:Ejp.
+      + apply Nat.eqb_eq in Ejp. subst j. rewrite GHp. destruct g0 as [g|]; cbn [option_map]; [|reflexivity].
+        exists g. split; [reflexivity|]. destruct Hprior as [Wg Dg]. rewrite DP, <- Edp, <- Dg. apply isT_self, Wg.
+      + apply Nat.eqb_neq in Ejp. destruct Hj as [Hj|Hj]; [|contradiction]. apply Gnone, Hj. }
+  destruct (fold_abs thr draw rd H dom HoH HwH (bce_pre (length h)) hh0 [] s0 HS0 HM0)
+    as (hm & logm & Ef & HSm & HMm & Hfr).
+  { intros c Hc. unfold bce_pre in Hc. cbn [map] in Hc. split; [|split].
+    - left. repeat (destruct Hc as [<-|Hc]; [apply Nat.le_add_r|]). destruct Hc.
+    - rewrite LH. repeat (destruct Hc as [<-|Hc]; [blia|]). destruct Hc.
+    - intros e He Ht'. destruct Hc as [<-|Hc].
+      { rewrite E29 in He. destruct He as [<-|[]]. cbn [fst snd rok]. split; [left; apply Nat.le_add_r|].
+        split; [reflexivity|]. split; [exact O28|]. exists 0%nat. rewrite D28, D29.
+        split; [reflexivity|]. split; [cbn [length]; apply Nat.lt_0_succ|reflexivity]. }
+      repeat (destruct Hc as [<-|Hc];
+        [use_edges He; cbn [In] in He; repeat (destruct He as [<-|He]; [rok_solve H|]); destruct He|]).
+      destruct Hc. }
+  assert (S029 : s0 (length h + 29)%nat = Some (fun _ => 1)) by (unfold s0; rewrite Nat.eqb_refl; reflexivity).
+  assert (S028 : s0 (length h + 28)%nat = None) by (unfold s0; rewrite eqb_off, (eqb_off_lt _ _ _ Hp); reflexivity).
+  assert (S027 : s0 (length h + 27)%nat = None) by (unfold s0; rewrite eqb_off, (eqb_off_lt _ _ _ Hp); reflexivity).
+  assert (S026 : s0 (length h + 26)%nat = None) by (unfold s0; rewrite eqb_off, (eqb_off_lt _ _ _ Hp); reflexivity).
+  assert (S024 : s0 (length h + 24)%nat = None) by (unfold s0; rewrite eqb_off, (eqb_off_lt _ _ _ Hp); reflexivity).
+  assert (S023 : s0 (length h + 23)%nat = None) by (unfold s0; rewrite eqb_off, (eqb_off_lt _ _ _ Hp); reflexivity).
+  assert (S021 : s0 (length h + 21)%nat = None) by (unfold s0; rewrite eqb_off, (eqb_off_lt _ _ _ Hp); reflexivity).
+  assert (S020 : s0 (length h + 20)%nat = None) by (unfold s0; rewrite eqb_off, (eqb_off_lt _ _ _ Hp); reflexivity).
+  assert (S019 : s0 (length h + 19)%nat = None) by (unfold s0; rewrite eqb_off, (eqb_off_lt _ _ _ Hp); reflexivity).
+  assert (S018 : s0 (length h + 18)%nat = None) by (unfold s0; rewrite eqb_off, (eqb_off_lt _ _ _ Hp); reflexivity).
+  assert (S022 : s0 (length h + 22)%nat = None) by (unfold s0; rewrite eqb_off, (eqb_off_lt _ _ _ Hp); reflexivity).
+  assert (S017 : s0 (length h + 17)%nat = None) by (unfold s0; rewrite eqb_off, (eqb_off_lt _ _ _ Hp); reflexivity).
+  assert (S015 : s0 (length h + 15)%nat = None) by (unfold s0; rewrite eqb_off, (eqb_off_lt _ _ _ Hp); reflexivity).
+  assert (S014 : s0 (length h + 14)%nat = None) by (unfold s0; rewrite eqb_off, (eqb_off_lt _ _ _ Hp); reflexivity).
+  assert (S025 : s0 (length h + 25)%nat = None) by (unfold s0; rewrite eqb_off, (eqb_off_lt _ _ _ Hp); reflexivity).
+  assert (S013 : s0 (length h + 13)%nat = None) by (unfold s0; rewrite eqb_off, (eqb_off_lt _ _ _ Hp); reflexivity).
+  assert (S012 : s0 (length h + 12)%nat = None) by (unfold s0; rewrite eqb_off, (eqb_off_lt _ _ _ Hp); reflexivity).
+  assert (S010 : s0 (length h + 10)%nat = None) by (unfold s0; rewrite eqb_off, (eqb_off_lt _ _ _ Hp); reflexivity).
+  assert (S09 : s0 (length h + 9)%nat = None) by (unfold s0; rewrite eqb_off, (eqb_off_lt _ _ _ Hp); reflexivity).
+  assert (S08 : s0 (length h + 8)%nat = None) by (unfold s0; rewrite eqb_off, (eqb_off_lt _ _ _ Hp); reflexivity).
+  assert (S07 : s0 (length h + 7)%nat = None) by (unfold s0; rewrite eqb_off, (eqb_off_lt _ _ _ Hp); reflexivity).
+  assert (S06 : s0 (length h + 6)%nat = None) by (unfold s0; rewrite eqb_off, (eqb_off_lt _ _ _ Hp); reflexivity).
+  assert (S05 : s0 (length h + 5)%nat = None) by (unfold s0; rewrite eqb_off, (eqb_off_lt _ _ _ Hp); reflexivity).
+  assert (S0p : s0 p = option_map elt g0) by (unfold s0; rewrite (eqb_lt_off _ _ _ Hp), Nat.eqb_refl; reflexivity).
+  assert (Fin : exists f, fold_left (anode thr H) (bce_pre (length h)) s0 p = Some f /\
+           forall idx, validIdx [N] idx -> f idx = prior g0 idx + bceD N (elt pv idx) (elt tv idx)).
+  { clear HMm HM0. clearbody s0. unfold bce_pre. cbn [map fold_left]. do 23 anode_step Hp. aq Hp. s0q.
+    eexists. split; [reflexivity|]. intros idx Hv. cbv beta.
+    pose proof (Vl_isT H _ _ _ _ idx V22 I22 Hv) as EV22. cbv beta in EV22.
+    pose proof (Vl_isT H _ _ _ _ idx V20 I20 Hv) as EV20. cbv beta in EV20.
+    pose proof (Vl_isT H _ _ _ _ idx V11 I11 Hv) as EV11. cbv beta in EV11.
+    pose proof (Vl_isT H _ _ _ _ idx V9 I9 Hv) as EV9. cbv beta in EV9.
+    pose proof (Vl_isT H _ _ _ _ idx V6 I6 Hv) as EV6. cbv beta in EV6.
+    pose proof (Vl_isT H _ _ _ _ idx V8 I8 Hv) as EV8. cbv beta in EV8.
+    pose proof (Vl_isT H _ _ _ _ idx V7 I7 Hv) as EV7. cbv beta in EV7.
+    assert (EVp : Vl H p idx = elt pv idx) by (unfold Vl; rewrite VHp; reflexivity).
+    destruct g0 as [gp|]; cbn [option_map prior rsem];
+      rewrite EV22, EV20, EV11, EV9, EV6, EV8, EV7, EVp, D28; change (Z.to_nat 0) with 0%nat; cbn [nth];
+      rewrite !clipR_simpl, !Rpow_c0, !cst_R, dec2R_0, dec2R_1, dec2R_m1, !Rmult_1_r;
+      unfold bceD; cbv zeta; unfold Rdiv.
+    all: ring. }
+  destruct Fin as (f & Ef' & Hf). specialize (HMm p (or_intror eq_refl)). rewrite Ef' in HMm.
+  destruct HMm as (g & Eg & Tg). rewrite DP in Tg.
+  rewrite Ef. exists hm, logm, rest, g. split; [reflexivity|]. split; [exact Brest|]. split.
+  { intros Hl. apply Hleaf. unfold H. rewrite edgesOf_old by exact Hp. exact Hl. }
+  split; [exact HSm|]. split; [exact HwH|]. split; [unfold H; rewrite trackedOf_app by exact Ht; exact Tt|].
+  split; [unfold H; apply edgesOf_old; exact Hp|].
+  split; [exact Eg|]. split; [rewrite Edp; exact (proj1 Tg)|]. split; [exact (proj1 (proj2 Tg))|]. split.
+  { apply (acc1_final thr draw g0 [N] _ f g); [rewrite <- Edp; exact Hprior|repeat constructor; exact Npos|exact Tg|exact Hf]. }
+  split; [|intros j Hj; unfold H; apply gradOf_old; exact Hj].
+  intros j Hj Hjp. rewrite Hfr by (unfold dom; blia). unfold hh0. rewrite gradOf_setGrad, gradOf_markDirty.
+  assert (X : (j =? length h + 29)%nat = false) by (apply Nat.eqb_neq; blia). rewrite X.
+  unfold H. apply gradOf_old. exact Hj.
+Qed.
+
+(* C13, BCE.  Whatever the outcome of the back-propagation below the prediction (p may be a leaf or
+   the result of earlier tracked operations: NO hypothesis restricts the back edges of p), the
+   prediction ends with its previous gradient accumulated with the tensor bceG, which has the
+   prediction's shape; the untracked target receives nothing and no value changes.  Holds for
+   both variants rd of the Broadcast back edge (every implicit broadcast is between equal shapes). *)
+Theorem bce_grad rd (h : heap) p t name pv tv g0 h1 l :
+  rules_own h -> wf_heap h ->
+  valOf h p = Some pv -> wf pv -> valOf h t = Some tv -> wf tv ->
+  trackedOf h p = true -> dirtyOf h p = false -> trackedOf h t = false -> dirtyOf h t = false ->
+  lossArgs1 h (Some p) (Some t) = Some (p, t) ->
+  gradOf h p = g0 -> prior_ok (dims pv) g0 ->
+  bce_compute eps ome h (Some p) (Some t) name = (h1, Ok l) ->
+  forall h2 log r, bp_topo rd idseal h1 l = (h2, log, r) ->
+    (exists g, gradOf h2 p = Some g /\ dims g = dims pv /\ wf g /\ acc1 g0 (bceG pv tv) = Some (Some g)) /\
+    gradOf h2 t = gradOf h1 t /\
+    (forall i, valOf h2 i = valOf h1 i).
+Proof.
+  intros Ho Hw Vp Wp Vt Wt Tp Dp Tt Dt Ea Eg0 Hprior E h2 log r E2.
+  destruct (bce_bp rd h p t name pv tv g0 h1 l Ho Hw Vp Wp Vt Wt Tp Dp Tt Dt Ea Eg0 Hprior E)
+    as (hm & logm & rest & g & Esp & Brest & _ & HSm & W1 & Tt1 & _ & Eg & Dg & Wg & Hacc & Hfr & Hold).
+  assert (Ht : (t < length h)%nat) by (eapply valOf_some_lt; eauto).
+  assert (Hpt : t <> p) by (intros X; subst t; congruence).
+  destruct (split_any rd h1 l p rest hm logm p W1 HSm Esp Brest (or_introl eq_refl) h2 log r E2) as [HS2 Hgp].
+  destruct (split_any rd h1 l p rest hm logm t W1 HSm Esp Brest (or_intror Tt1) h2 log r E2) as [_ Hgt].
+  split; [exists g; rewrite Hgp; auto|]. split.
+  - rewrite Hgt, (Hfr t Ht Hpt), (Hold t Ht). reflexivity.
+  - intros i. symmetry. apply (sameS_val _ _ HS2).
+Qed.
+
+(* the same statement read for an interior prediction: it IS the same theorem *)
+Definition bce_grad_interior := bce_grad.
+
+(* never fails: a leaf prediction *)
+Theorem bce_grad_leaf rd (h : heap) p t name pv tv g0 h1 l :
+  rules_own h -> wf_heap h ->
+  valOf h p = Some pv -> wf pv -> valOf h t = Some tv -> wf tv ->
+  trackedOf h p = true -> dirtyOf h p = false -> trackedOf h t = false -> dirtyOf h t = false ->
+  lossArgs1 h (Some p) (Some t) = Some (p, t) ->
+  gradOf h p = g0 -> prior_ok (dims pv) g0 ->
+  bce_compute eps ome h (Some p) (Some t) name = (h1, Ok l) ->
+  edgesOf h p = [] ->
+  exists h2 log, bp_topo rd idseal h1 l = (h2, log, Ok tt) /\
+    (exists g, gradOf h2 p = Some g /\ dims g = dims pv /\ wf g /\ acc1 g0 (bceG pv tv) = Some (Some g)) /\
+    gradOf h2 t = gradOf h1 t /\
+    (forall i, valOf h2 i = valOf h1 i).
+Proof.
+  intros Ho Hw Vp Wp Vt Wt Tp Dp Tt Dt Ea Eg0 Hprior E Hleaf.
+  destruct (bce_bp rd h p t name pv tv g0 h1 l Ho Hw Vp Wp Vt Wt Tp Dp Tt Dt Ea Eg0 Hprior E)
+    as (hm & logm & rest & g & Esp & _ & Hrest & HSm & _ & _ & Hed & Eg & _).
+  rewrite (Hrest Hleaf) in Esp. rewrite (split_leaf rd h1 p hm logm g HSm) in Esp; [|congruence|exact Eg].
+  eexists _, _. split; [exact Esp|].
+  exact (bce_grad rd h p t name pv tv g0 h1 l Ho Hw Vp Wp Vt Wt Tp Dp Tt Dt Ea Eg0 Hprior E _ _ _ Esp).
+Qed.
+
+(* an untracked prediction: the loss is untracked and back-propagation changes nothing *)
+Theorem bce_grad_untracked rd sealg (h : heap) p t name pv tv h1 l :
+  valOf h p = Some pv -> valOf h t = Some tv ->
+  trackedOf h p = false -> dirtyOf h p = false -> trackedOf h t = false -> dirtyOf h t = false ->
+  lossArgs1 h (Some p) (Some t) = Some (p, t) ->
+  bce_compute eps ome h (Some p) (Some t) name = (h1, Ok l) ->
+  bp_topo rd sealg h1 l = (h1, [], Ok tt).
+Proof.
+  intros Vp Vt Tp Dp Tt Dt Ea E.
+  destruct (bce_structure eps ome h p t name h1 l false pv tv Vp Vt Tp Dp Tt Dt Ea E)
+    as (a0 & a1 & a2 & a3 & a4 & b0 & b1 & b2 & b3 & b4 & lpv & k1 & k2 & sAv & one2 & d1 & d2 & t2v & e1 & e2 & y2v
+        & ly2v & f1 & f2 & sBv & g1 & g2 & lv & lnv & lossv & _ & -> & ->).
+  apply bp_topo_untracked. rewrite trackedOf_off. reflexivity.
+Qed.
+
+(* ---------------------------------------------------------------------------------------- *)
+(* the analytic reading of bceG                                                             *)
+(* ---------------------------------------------------------------------------------------- *)
+Definition bclip01 (t : R) : R := Rmax 0 (Rmin t 1).
+
+Lemma bclip01_id t : 0 <= t <= 1 -> bclip01 t = t.
+Proof. intros [H0 H1]. unfold bclip01. rewrite Rmin_left by exact H1. apply Rmax_right, H0. Qed.
+
+Lemma bclip01_range t : 0 <= bclip01 t <= 1.
+Proof.
+  unfold bclip01. split; [apply Rmax_l|]. apply Rmax_lub; [lra|apply Rmin_r].
+Qed.
+
+Lemma bce_eqt_gt a b : 0 <= thr -> thr < a - b -> eqt thr a b = 0 /\ eqt thr b a = 0.
+Proof.
+  intros Ht H. split; apply eqt_far.
+  - rewrite Rabs_pos_eq by lra. exact H.
+  - rewrite Rabs_minus_sym, Rabs_pos_eq by lra. exact H.
+Qed.
+
+(* strictly inside the clipping interval: the derivative of the loss *)
+Lemma bceD_inside N x t : 0 <= thr -> 0 < eps -> ome < 1 -> (0 < N)%nat -> eps + thr < x -> x < ome - thr ->
+  bceD N x t = ((1 - bclip01 t) / (1 - x) - bclip01 t / x) / INR N.
+Proof.
+  intros Ht He Ho HN Hl Hu. unfold bceD. fold (bclip01 t).
+  rewrite (Rmin_left x ome) by lra. rewrite (Rmax_right eps x) by lra.
+  rewrite (eqt_same thr x Ht).
+  destruct (bce_eqt_gt x eps Ht ltac:(lra)) as [X1 _]. destruct (bce_eqt_gt ome x Ht ltac:(lra)) as [_ X2].
+  rewrite X1, X2. assert (HN' : INR N <> 0) by (apply not_0_INR; lia). field. repeat split; lra.
+Qed.
+
+(* clipped from below (x < eps, in particular x = 0): a finite zero *)
+Lemma bceD_below N x t : 0 <= thr -> eps < ome -> x < eps - thr -> bceD N x t = 0.
+Proof.
+  intros Ht He Hl. unfold bceD.
+  rewrite (Rmin_left x ome) by lra. rewrite (Rmax_left eps x) by lra.
+  destruct (bce_eqt_gt eps x Ht ltac:(lra)) as [X1 X2]. rewrite X1, X2. ring.
+Qed.
+
+(* clipped from above (x > 1 - eps, in particular x = 1): a finite zero *)
+Lemma bceD_above N x t : 0 <= thr -> ome + thr < x -> bceD N x t = 0.
+Proof.
+  intros Ht Hl. unfold bceD.
+  rewrite (Rmin_right x ome) by lra.
+  destruct (bce_eqt_gt x ome Ht ltac:(lra)) as [X1 X2]. rewrite X1, X2. ring.
+Qed.
+
+(* C13, the formula.  In Go eps = 1e-12, ome = 1 - 1e-12 and the equality threshold thr is 1e-240;
+   at thr = 0 the guards are exactly  eps < p < ome,  p < eps,  p > ome. *)
+Theorem bce_grad_formula (pv tv : T) N idx :
+  0 <= thr -> 0 < eps -> eps < ome -> ome < 1 ->
+  dims pv = [N] -> validIdx [N] idx ->
+  let x := elt pv idx in let t := elt tv idx in
+  dims (bceG pv tv) = [N] /\ wf (bceG pv tv) /\
+  (eps + thr < x -> x < ome - thr ->
+     elt (bceG pv tv) idx = ((1 - bclip01 t) / (1 - x) - bclip01 t / x) / INR N) /\
+  (eps + thr < x -> x < ome - thr -> 0 <= t <= 1 ->
+     elt (bceG pv tv) idx = ((1 - t) / (1 - x) - t / x) / INR N) /\
+  (x < eps - thr -> elt (bceG pv tv) idx = 0) /\
+  (ome + thr < x -> elt (bceG pv tv) idx = 0) /\
+  (thr < eps -> x = 0 -> elt (bceG pv tv) idx = 0) /\
+  (ome + thr < 1 -> x = 1 -> elt (bceG pv tv) idx = 0).
+Proof.
+  intros Ht He Heo Ho Edp Hv x t. unfold bceG. rewrite Edp. cbn [nth].
+  assert (HN : (0 < N)%nat).
+  { clear - Hv. inversion Hv as [|i0 n0 l1 l2 H1 H2]; subst. lia. }
+  assert (Hpos : List.Forall (fun d : nat => (0 < d)%nat) [N]) by (repeat constructor; exact HN).
+  split; [reflexivity|]. split; [apply ofFun_wf, Hpos|].
+  rewrite (elt_ofFun _ _ _ Hv). fold x t.
+  split; [intros Hl Hu; apply bceD_inside; assumption|].
+  split; [intros Hl Hu Ht01; rewrite <- (bclip01_id t Ht01) at 2 3; apply bceD_inside; assumption|].
+  split; [intros Hl; apply bceD_below; assumption|].
+  split; [intros Hu; apply bceD_above; assumption|].
+  split; [intros Hte Hp0; apply bceD_below; [assumption|assumption|lra]|].
+  intros Hte Hp1; apply bceD_above; [assumption|lra].
+Qed.
+
+Lemma bce_acc1_elt ds (o : option T) (G g : T) : prior_ok ds o -> wf G -> dims G = ds -> acc1 o G = Some (Some g) ->
+  forall idx, validIdx ds idx -> elt g idx = prior o idx + elt G idx.
+Proof.
+  intros Hp WG DG Ha idx Hv. destruct o as [gp|]; cbn [acc1 prior] in *.
+  - destruct Hp as [Wp Dp].
+    destruct (ar_elt thr draw BiAdd gp G Wp WG ltac:(congruence)) as (s & Es & _ & _ & Gs).
+    rewrite Es in Ha. assert (s = g) by congruence. subst s.
+    rewrite Gs by (rewrite Dp; exact Hv). reflexivity.
+  - assert (G = g) by congruence. subst g. ring.
+Qed.
+
+(* C13, BCE, end to end: bce_grad and bce_grad_formula combined, element by element *)
+Theorem bce_grad_elementwise rd (h : heap) p t name pv tv g0 h1 l N :
+  0 <= thr -> 0 < eps -> eps < ome -> ome < 1 ->
+  rules_own h -> wf_heap h ->
+  valOf h p = Some pv -> wf pv -> valOf h t = Some tv -> wf tv ->
+  trackedOf h p = true -> dirtyOf h p = false -> trackedOf h t = false -> dirtyOf h t = false ->
+  lossArgs1 h (Some p) (Some t) = Some (p, t) ->
+  gradOf h p = g0 -> prior_ok (dims pv) g0 ->
+  bce_compute eps ome h (Some p) (Some t) name = (h1, Ok l) ->
+  dims pv = [N] ->
+  forall h2 log r, bp_topo rd idseal h1 l = (h2, log, r) ->
+    exists g, gradOf h2 p = Some g /\ dims g = [N] /\ wf g /\
+      forall idx, validIdx [N] idx ->
+        let pe := elt pv idx in let te := elt tv idx in
+        (eps + thr < pe -> pe < ome - thr ->
+           elt g idx = prior g0 idx + ((1 - bclip01 te) / (1 - pe) - bclip01 te / pe) / INR N) /\
+        (eps + thr < pe -> pe < ome - thr -> 0 <= te <= 1 ->
+           elt g idx = prior g0 idx + ((1 - te) / (1 - pe) - te / pe) / INR N) /\
+        (pe < eps - thr \/ ome + thr < pe -> elt g idx = prior g0 idx) /\
+        (thr < eps /\ pe = 0 \/ ome + thr < 1 /\ pe = 1 -> elt g idx = prior g0 idx).
+Proof.
+  intros Hthr He Heo Ho1 Ho Hw Vp Wp Vt Wt Tp Dp Tt Dt Ea Eg0 Hprior E Edp h2 log r E2.
+  destruct (bce_grad rd h p t name pv tv g0 h1 l Ho Hw Vp Wp Vt Wt Tp Dp Tt Dt Ea Eg0 Hprior E h2 log r E2)
+    as ((g & Eg & Dg & Wg & Hacc) & _ & _).
+  exists g. split; [exact Eg|]. split; [congruence|]. split; [exact Wg|]. intros idx Hv pe te.
+  destruct (bce_grad_formula pv tv N idx Hthr He Heo Ho1 Edp Hv) as (DG & WG & F1 & F2 & F3 & F4 & F5 & F6).
+  fold pe te in F1, F2, F3, F4, F5, F6.
+  rewrite Edp in Hprior.
+  pose proof (bce_acc1_elt [N] g0 (bceG pv tv) g Hprior WG DG Hacc idx Hv) as Hel.
+  split; [intros Hl Hu; rewrite Hel, F1 by assumption; reflexivity|].
+  split; [intros Hl Hu Ht; rewrite Hel, F2 by assumption; reflexivity|].
+  split; [intros [Hl|Hu]; rewrite Hel; [rewrite F3 by exact Hl|rewrite F4 by exact Hu]; ring|].
+  intros [[Hte H0]|[Hte H1']]; rewrite Hel; [rewrite F5 by assumption|rewrite F6 by assumption]; ring.
+Qed.
+
+(* exactly AT the bounds (excluded by the property) the ElMax/ElMin rules split the tie: half the
+   interior value.  With thr > 0 the same happens in the band within thr of a bound (the recorded
+   near-tie finding D10); at thr = 0 the band is the single point. *)
+Lemma bceD_near_eps N x t : 0 <= thr -> 0 < eps -> ome < 1 -> (0 < N)%nat -> eps <= x -> x <= eps + thr -> x < ome - thr ->
+  bceD N x t = / 2 * (((1 - bclip01 t) / (1 - x) - bclip01 t / x) / INR N).
+Proof.
+  intros Ht He Ho HN Hl Hn Hu. unfold bceD. fold (bclip01 t).
+  rewrite (Rmin_left x ome) by lra. rewrite (Rmax_right eps x) by lra.
+  rewrite (eqt_same thr x Ht).
+  assert (X1 : eqt thr x eps = 1) by (apply eqt_near; rewrite Rabs_pos_eq; lra).
+  destruct (bce_eqt_gt ome x Ht ltac:(lra)) as [_ X2].
+  rewrite X1, X2. assert (HN' : INR N <> 0) by (apply not_0_INR; lia). field. repeat split; lra.
+Qed.
+
+Lemma bceD_near_ome N x t : 0 <= thr -> 0 < eps -> ome < 1 -> (0 < N)%nat -> eps + thr < x -> ome - thr <= x -> x <= ome ->
+  bceD N x t = / 2 * (((1 - bclip01 t) / (1 - x) - bclip01 t / x) / INR N).
+Proof.
+  intros Ht He Ho HN Hl Hn Hu. unfold bceD. fold (bclip01 t).
+  rewrite (Rmin_left x ome) by lra. rewrite (Rmax_right eps x) by lra.
+  rewrite (eqt_same thr x Ht).
+  assert (X1 : eqt thr x ome = 1) by (apply eqt_near; rewrite Rabs_minus_sym, Rabs_pos_eq; lra).
+  destruct (bce_eqt_gt x eps Ht ltac:(lra)) as [X2 _].
+  rewrite X1, X2. assert (HN' : INR N <> 0) by (apply not_0_INR; lia). field. repeat split; lra.
+Qed.
+
+End BceBp.
+
+(* the exact-threshold reading (thr = 0): the guards are the property's *)
+Corollary bce_grad_formula_thr0 (eps ome : R) (pv tv : tensor R) N idx :
+  0 < eps -> eps < ome -> ome < 1 -> dims pv = [N] -> validIdx [N] idx ->
+  let x := elt pv idx in let t := elt tv idx in
+  (eps < x -> x < ome -> elt (bceG 0 eps ome pv tv) idx = ((1 - bclip01 t) / (1 - x) - bclip01 t / x) / INR N) /\
+  (eps < x -> x < ome -> 0 <= t <= 1 -> elt (bceG 0 eps ome pv tv) idx = ((1 - t) / (1 - x) - t / x) / INR N) /\
+  (x < eps \/ ome < x -> elt (bceG 0 eps ome pv tv) idx = 0) /\
+  (x = 0 \/ x = 1 -> elt (bceG 0 eps ome pv tv) idx = 0).
+Proof.
+  intros He Heo Ho Edp Hv x t.
+  destruct (bce_grad_formula 0 eps ome pv tv N idx (Rle_refl 0) He Heo Ho Edp Hv)
+    as (_ & _ & F1 & F2 & F3 & F4 & F5 & F6). fold x t in F1, F2, F3, F4, F5, F6.
+  split; [intros Hl Hu; apply F1; lra|]. split; [intros Hl Hu Ht; apply F2; [lra|lra|exact Ht]|].
+  split; [intros [Hl|Hu]; [apply F3; lra|apply F4; lra]|].
+  intros [H0|H1]; [apply F5; [lra|exact H0]|apply F6; [lra|exact H1]].
+Qed.
+
+(* ---- non-vacuity: a leaf prediction [1/2; 1], target [1; 0], eps = 1/4, 1-eps = 3/4, exact equality
+   (thr = 0): gradient [-1; 0] (zero at the clipped prediction 1) ---- *)
+Section BceEx.
+Variable draw : bool -> nat -> R.
+Local Hint Extern 0 (Scalar R) => exact (R_scalar 0 draw) : typeclass_instances.
+Local Open Scope R_scope.
+
+Definition bexP : tensor R := mkT [2%nat] (Vec [Sc (1 / 2); Sc 1]).
+Definition bexT : tensor R := mkT [2%nat] (Vec [Sc 1; Sc 0]).
+Definition bexH : @heap R :=
+  [mkNode bexP true false None [] (Some 0%nat); mkNode bexT false false None [] (Some 1%nat)].
+
+Lemma wf_bv2 (a b : R) : wf (mkT [2%nat] (Vec [Sc a; Sc b])).
+Proof. split; [cbn; repeat constructor|repeat constructor]. Qed.
+
+Example bce_grad_ex rd : exists h1 l h2 log g,
+  bce_compute (1 / 4) (3 / 4) bexH (Some 0%nat) (Some 1%nat) None = (h1, Ok l) /\
+  bp_topo rd (fun _ g => g) h1 l = (h2, log, Ok tt) /\
+  gradOf h2 0 = Some g /\ dims g = [2%nat] /\ elt g [0%nat] = -1 /\ elt g [1%nat] = 0.
+Proof.
+  assert (Ho : rules_own bexH) by (intros c n e Hn He; destruct c as [|[|[|c]]]; cbn in Hn; try discriminate; inversion Hn; subst n; destruct He).
+  assert (Hw : wf_heap bexH) by (intros c n e Hn He; destruct c as [|[|[|c]]]; cbn in Hn; try discriminate; inversion Hn; subst n; destruct He).
+  destruct (bce_compute_spec (1 / 4) (3 / 4) bexH (Some 0%nat) (Some 1%nat) 0%nat 1%nat None bexP bexT eq_refl eq_refl eq_refl
+              (wf_bv2 _ _) (wf_bv2 _ _)) as (n & r & _ & _ & (h1 & l & E & _) & _).
+  destruct (bce_grad_leaf 0 draw (1 / 4) (3 / 4) rd bexH 0%nat 1%nat None bexP bexT None h1 l Ho Hw eq_refl (wf_bv2 _ _)
+              eq_refl (wf_bv2 _ _) eq_refl eq_refl eq_refl eq_refl eq_refl eq_refl I E eq_refl)
+    as (h2 & log & E2 & (g & Eg & Dg & _ & Hacc) & _).
+  exists h1, l, h2, log, g. split; [exact E|]. split; [exact E2|]. split; [exact Eg|]. split; [exact Dg|].
+  cbn [acc1] in Hacc. assert (g = bceG 0 (1 / 4) (3 / 4) bexP bexT) by congruence. subst g.
+  assert (V : forall i, (i < 2)%nat -> validIdx [2%nat] [i]) by (intros i Hi; constructor; [exact Hi|constructor]).
+  assert (K1 : 0 < 1 / 4) by lra. assert (K2 : 1 / 4 < 3 / 4) by lra. assert (K3 : 3 / 4 < 1) by lra.
+  assert (L0 : (0 < 2)%nat) by lia. assert (L1 : (1 < 2)%nat) by lia.
+  destruct (bce_grad_formula_thr0 (1 / 4) (3 / 4) bexP bexT 2 [0%nat] K1 K2 K3 eq_refl (V _ L0)) as (_ & F0 & _ & _).
+  destruct (bce_grad_formula_thr0 (1 / 4) (3 / 4) bexP bexT 2 [1%nat] K1 K2 K3 eq_refl (V _ L1)) as (_ & _ & _ & F1).
+  assert (P0 : elt bexP [0%nat] = 1 / 2) by reflexivity.
+  assert (P1 : elt bexP [1%nat] = 1) by reflexivity.
+  assert (T0 : elt bexT [0%nat] = 1) by reflexivity.
+  rewrite P0, T0 in F0. rewrite P1 in F1.
+  split; [rewrite F0; [simpl INR; lra|lra|lra|lra]|]. apply F1; right; reflexivity.
+Qed.
+End BceEx.
+
+Print Assumptions bce_structure.
+Print Assumptions bce_bp.
+Print Assumptions bce_grad.
+Print Assumptions bce_grad_leaf.
+Print Assumptions bce_grad_untracked.
+Print Assumptions bce_grad_formula.
+Print Assumptions bce_grad_elementwise.
+Print Assumptions bce_grad_formula_thr0.
+Print Assumptions bce_grad_ex.
